@@ -935,6 +935,9 @@ def avctp_corpus() -> list[Pdu]:
         Pdu('avctp/continue-fragment', avctp_hdr(15, 2, True) + bytes([0x10, 0]) + be16(1)),
         Pdu('avctp/end-fragment', avctp_hdr(15, 3, True) + b'\x02'),
         Pdu('avctp/end-without-start', avctp_hdr(0, 3, True) + b'\x02'),
+        # the same trains with transaction label 0 (the lowest label is a valid label, not a sentinel)
+        Pdu('avctp/start-fragment-label0', avctp_hdr(0, 1, True) + bytes([3]) + be16(P) + avc(1, 9, 0, 0x00, BT_SIG), ((1, 1, 'le'),)),
+        Pdu('avctp/continue-fragment-label0', avctp_hdr(0, 2, True) + bytes([0x10, 0]) + be16(1)),
         Pdu('avctp/header-only', avctp_hdr(1, 0, True)),
     ]
 
